@@ -192,6 +192,19 @@ def run_history(case: dict) -> dict:
         path, key = op["path"], list(op["key"])
         text = op.get("text", "")
         value = text if text != "" else decanon(op["val"])
+        if op.get("elsewhere"):
+            # the same assignment is first made on ANOTHER processor (another detector type) of this process, where
+            # the key may well exist: processors are independent, nothing learnt there applies here
+            try:
+                other = make_processor(op["elsewhere"])
+                with warnings.catch_warnings():
+                    warnings.simplefilter("ignore")
+                    if path == "override":
+                        apply_overrides({".".join(key): value}, processor=other, mode=Exposure(readout=Readout(times=[1.0])))
+                    else:
+                        other.has(".".join(key)) and other.set(".".join(key), value)
+            except Exception:
+                pass
         before = snapshot(proc, kind)
         out, ran, stored, why = "ok", False, None, ""
         after = None
